@@ -20,6 +20,12 @@ CLAIMS = {
  "C14": ("other", "match-table extraction + symbolic dataflow of the demodulator sets + rational normal forms of the formulas",
    "Decides: 8PSK modulator table = DVB-S2 Gray mapping as exact symbolic points (unit energy, Gray), BPSK 0->-1/1->+1; the six maxstar sets of the 8PSK demodulator are exactly the bit=0/bit=1 partitions of the modulator's own table, combined with the right sign and emitted in the modulator's bit order; dot/maxstar/scale formulas as normal forms, BPSK scale tied to the modulator's symbols. Floating-point closeness to log(P0/P1) is not decided.",
    "Trusted: DVB-S2 8PSK mapping as transcribed; exp/ln_1p/max/abs/sqrt treated as the mathematical functions."),
+ "C15": ("other", "symbolic layout algebra over the ndarray view operations + block-map normal forms + panic-site audit",
+   "Decides: the interleaver index map out[r*C+c] = in[c*R+r] (backward: in[(C-1-c)*R+r]) and that deinterleave composed with it is the identity, for both reading directions; puncture/depuncture block maps (kept positions enumerated in order, block sizes, output lengths, default fill), rate = pattern_len/num_trues, num_trues = count of trues; divisibility guards return Err with the same divisor that defines the block size and the remaining panic sites are discharged. Value equality for all vectors follows from the maps under the trusted ndarray model; it is not separately decided.",
+   "Trusted: the 5-operation ndarray model (row-major reshape, t, invert_axis, assign into zeros(raw_dim), flatten); panic model; reviewed slice-bound arguments."),
+ "C17": ("other", "effect tracing of every &mut method + mirror-symmetry check + who-may-write scan over module `sparse`",
+   "Decides the premises of the induction over histories: every mutator has mirrored, correctly addressed effects on the row and column lists (insert guarded by !contains; remove retains x != index; toggle = contains ? remove : insert on the same coordinates; clear/set/bulk variants), the effect sets are invariant under rows<->cols, no method other than `new` touches the outer vectors (dimensions fixed), queries read the lists consistently, fields are private and equality is derived. The equivalence to a mathematical set for all histories follows by induction from these premises and is not separately proved.",
+   "Trusted: Vec::push/retain/clear semantics; rustc's privacy checking for the field visibility recorded in the facts."),
  "C18": ("proof", "static table extraction from type-checked HIR/MIR and cross-table agreement",
    "All 36 names are decided as agreement of five finite tables (enum, factory arms from HIR and again from MIR, FromStr, Display, clap ValueEnum) plus the naming law and the variant documentation; every row is an obligation and all must discharge. Finite and exhaustive, so a table-level proof is the right level.",
    "Trusted: rustc's HIR/MIR for the crate, match-arm semantics. The behaviour of the generic decoders themselves is C01/C03, not C18."),
